@@ -35,6 +35,7 @@ def dispatch (mode : String) (line : String) : String :=
   | "c19" => Driver.c19 line
   | "c06" => Driver.c06 line
   | "c13" => Driver.c13 line
+  | "c13p" => Driver.c13P line
   | "c08" => Driver.c08 line
   | "c07" => if line.startsWith "rtt" then Driver.c07typed line else Driver.c07 line
   | "c17" => Driver.c17 line
